@@ -216,9 +216,9 @@ func drainNames(itr byteItr, err error) string {
 func (r *runner) mark() {
 	r.before = make([]int64, r.partN)
 	for i := range r.before {
-		if fi, err := os.Stat(tsi1.VerifActiveLogPath(r.idx.PartitionAt(i))); err == nil {
-			r.before[i] = fi.Size()
-		}
+		// the logical end of the log: after a torn tail was dropped on open the file on disk
+		// is longer than this (LogFile.open seeks back, it does not truncate)
+		r.before[i] = tsi1.VerifActiveLogSize(r.idx.PartitionAt(i))
 	}
 }
 
@@ -398,10 +398,14 @@ func (r *runner) Op(t []string) string {
 		}
 		k, extra := int(h.Atoi(t[2])), int(h.Atoi(t[3]))
 		path := tsi1.VerifActiveLogPath(r.idx.PartitionAt(pn))
+		logical := tsi1.VerifActiveLogSize(r.idx.PartitionAt(pn))
 		r.closeAll()
 		data, err := os.ReadFile(path)
 		if err != nil {
 			return "err:read"
+		}
+		if int64(len(data)) > logical { // stale bytes of an earlier torn tail beyond the log's end
+			data = data[:logical]
 		}
 		off, n := 0, 0
 		if r.before != nil {
